@@ -120,7 +120,8 @@ CLAIMS = {
         technique="Coq proof (the validation model accepts exactly the conjunction the statement lists; shape of a well-formed hash; configured channels and default user modes in the state model) + differential validation of generated configuration files and command lines, and start-up / -g / plain-vs-TLS runs of the real binary",
         text="Theorems (props/C20.v): config_accept holds iff the TLS certificate and key options come together, the effective (command-line overridden) server name contains a dot, every password "
              "hash is 86 characters of canonical unpadded base64 (64 bytes), every operator and user name and nick passes the name validator (nicks at most 200 bytes) and every channel name the "
-             "channel validator; the command line wins over the file; predefined channels exist from the start with their settings (with C16); a new user gets exactly the default user modes. "
+             "channel validator; the command line wins over the file; predefined channels exist from the start with their settings (with C16); a new user gets exactly the default user modes; the welcome burst of a completed registration is, line for line, built from the configured network, server name, MOTD, "
+             "max_joins (ISUPPORT) and default modes (C20_welcome_burst). "
              "MainConfig::new is tied to that model on every run over generated files (each validated field valid/invalid/absent) and an independent python statement of the rules; exit status, "
              "welcome burst, max_joins, -n, the -g hash round trip through a configured server and the plain-vs-TLS transcript equality are observed on the real binary (L2).",
         design_ref="5 (C20)",
